@@ -324,6 +324,19 @@ def run_shards(binary, args, nshards, rundir, env=None, timeout=1800, tag="s", s
         procs[p.pid] = (p, i, attempt, ep, time.time())
         progress[p.pid] = [None, time.time()]
 
+    try:
+        return _run_shards_loop(procs, outs, crashes, restarts, progress, start, nshards, timeout, stall, max_restarts, drvname)
+    finally:
+        # whatever ends the loop (harness failure, exception while starting a shard, interrupt): no driver may outlive its run
+        for pid in list(procs):
+            try:
+                procs[pid][0].kill()
+                procs[pid][0].wait()
+            except Exception:
+                pass
+
+
+def _run_shards_loop(procs, outs, crashes, restarts, progress, start, nshards, timeout, stall, max_restarts, drvname):
     for i in range(nshards):
         start(i)
     deadline = time.time() + timeout
